@@ -771,6 +771,22 @@ Definition ty_eqb_top (a b : ty) : bool :=
      | _, _ => false
      end) a b.
 
+(** the types a program mentions: its classes, their parents, the types of their members and
+    the element types of arrays *)
+Fixpoint subterms (t : ty) : list ty :=
+  t :: match t with TArr e => subterms e | _ => [] end.
+Definition cls_types (i : cid) (cl : cls) : list ty :=
+  TRef i :: (match c_parent cl with Some p => [TRef p] | None => [] end)
+         ++ flat_map (fun f => subterms (f_ty f)) (c_own cl).
+Definition all_types (U : universe) : list ty :=
+  flat_map (fun i => match get_cls U i with Some cl => cls_types i cl | None => [] end) (seq 0 (length U)).
+
+(** distinct types of the program have distinct keys '{ns}name' (otherwise Interface.has_class
+    raises ValueError when the application is built) *)
+Definition keys_ok (U : universe) (tns : text) : bool :=
+  let ts := all_types U in
+  forallb (fun t => forallb (fun t' => implb (rkey_eqb (key_of U tns t) (key_of U tns t')) (ty_eqb_top t t')) ts) ts.
+
 (** registries compared as finite maps *)
 Definition reg_sub (a b : registry) : bool :=
   forallb (fun e : rkey * ty => match reg_find b (fst e) with Some t => ty_eqb_top t (snd e) | None => false end) a.
